@@ -48,7 +48,7 @@ func VerifC05_TopicCloseFlush() {
 	o := verifOpts()
 	o.MemQueueSize = 2
 	n := verifShellNSQD(o)
-	verifrt.Stub("(*github.com/nsqio/nsq/nsqd.NSQD).Notify", verifNotifyNop)
+	verifrt.StubNative("(*github.com/nsqio/nsq/nsqd.NSQD).Notify", verifNotifyNop)
 	var t *Topic
 	verifrt.Atomic(func() { t = NewTopic("t", n, func(*Topic) {}) })
 	if !verifrt.Symbolic() {
@@ -85,7 +85,7 @@ func VerifC05_TopicCloseFlush() {
 func VerifC05_MetadataRoundTrip() { verifC05Metadata() }
 
 func verifC05Metadata() {
-	verifrt.Stub("(*github.com/nsqio/nsq/nsqd.NSQD).Notify", verifNotifyNop)
+	verifrt.StubNative("(*github.com/nsqio/nsq/nsqd.NSQD).Notify", verifNotifyNop)
 	verifrt.Preemptions(0)
 	n1 := verifShellNSQD(verifOpts())
 	type spec struct {
@@ -231,7 +231,7 @@ func VerifC05_TopicCloseVsPublish() {
 	o := verifOpts()
 	o.MemQueueSize = 2
 	n := verifShellNSQD(o)
-	verifrt.Stub("(*github.com/nsqio/nsq/nsqd.NSQD).Notify", verifNotifyNop)
+	verifrt.StubNative("(*github.com/nsqio/nsq/nsqd.NSQD).Notify", verifNotifyNop)
 	var t *Topic
 	verifrt.Atomic(func() {
 		verifConcreteIDs, verifIDSeq = true, 0
@@ -257,3 +257,7 @@ func VerifC05_TopicCloseVsPublish() {
 		verifrt.Reach("acked-during-close", true)
 	}
 }
+
+// What graceful shutdown flushes must be accepted by the disk queues: a message of any legal size
+// fits the record limits of the topic's and the channel's disk queue (shared with C01).
+func VerifC05_MaxSizeMessageFitsDiskQueues() { verifrt.Atomic(verifMaxSizeOverflow) }
